@@ -64,6 +64,10 @@ func c16Zone(version int, failing int) zoneh.Universe {
 		{Owner: "d.example", Type: 65, TTL: 60, HTTPS: &zoneh.HTTPS{Priority: 2, ALPN: []string{"h3"}, ECH: []byte{v, 2}}},
 		{Owner: "d.example", Type: 65, TTL: 60, HTTPS: &zoneh.HTTPS{Priority: 1, ALPN: []string{"h2", "http/1.1"}, ECH: []byte{v, 1}}},
 	}}
+	// e: three A records and one AAAA (a cached record slice with room to spare, as append leaves it)
+	u[zoneh.Key{Name: "e.example", Type: 1}] = zoneh.Resp{Answers: []zoneh.Ans{ans("e.example", 1, 60, 1), ans("e.example", 1, 60, 2), ans("e.example", 1, 60, 3)}}
+	u[zoneh.Key{Name: "e.example", Type: 28}] = zoneh.Resp{Answers: []zoneh.Ans{ans("e.example", 28, 60, 1)}}
+	u[zoneh.Key{Name: "e.example", Type: 65}] = zoneh.Resp{Answers: []zoneh.Ans{{Owner: "e.example", Type: 65, TTL: 60, HTTPS: &zoneh.HTTPS{Priority: 1, Target: "e.example", ALPN: []string{"h2"}, ECH: []byte{v, 7}}}}}
 	if failing == 1 {
 		for k := range u {
 			u[k] = zoneh.Resp{Fail: true}
@@ -108,7 +112,8 @@ func (c *c16Clock) arm(n int) {
 	c.mu.Unlock()
 }
 
-var c16Base = time.Date(2026, 1, 1, 0, 0, 0, 0, time.UTC)
+// the clock does not tick on whole seconds: every reading is x.6 s (expiry arithmetic is exact, not rounded)
+var c16Base = time.Date(2026, 1, 1, 0, 0, 0, 600_000_000, time.UTC)
 
 func (c *c16Clock) now() time.Time {
 	c.mu.Lock()
@@ -320,7 +325,7 @@ func genC16R(env *core.Env, emit func(core.Case)) {
 				}()
 				for i := 0; i < 30; i++ {
 					// (nx.example does not exist: every lookup for it fails)
-					name := []string{"a.example", "b.example", "c.example", "nx.example"}[(g+i)%4]
+					name := []string{"a.example", "b.example", "c.example", "nx.example", "e.example"}[(g+i)%5]
 					res, err := resolver.Resolve(context.Background(), name)
 					if err != nil {
 						continue
